@@ -1,7 +1,7 @@
 # Contracts for aldy/gene.py
 
 
-@contract("aldy.gene.Gene.region_at")
+@contract("aldy.gene.Gene.region_at", pure=True)
 def _(self, pos):
     types(pos="int")
     returns("Optional[Tuple[int, str]]")
@@ -38,7 +38,7 @@ def _(self, a, pos):
     modifies()
 
 
-@contract("aldy.gene.Gene.deletion_allele")
+@contract("aldy.gene.Gene.deletion_allele", pure=True)
 def _(self):
     returns("Optional[str]")
     # the (unique by construction) configuration of kind DELETION, None if there is none
